@@ -39,6 +39,38 @@ CHECKS = {
         "free comments are left to the library, separation is judged by a fresh parse; emptied "
         "paragraphs are outside the domain",
         "DESIGN.md 4/C10"),
+    "C11": (
+        "bounded-exhaustive enumeration of line-shape layouts x single edits + Hypothesis list-field "
+        "layouts x edit histories (append/remove/replace/value references/reformat, observed and "
+        "unobserved); oracle: independent splitting function on the raw field text, list model "
+        "after every step, byte identity of untouched fields",
+        "generated-input search with a splitting oracle and a Python-list model of the edits; "
+        "no-op byte identity, locality and re-read of the edited list are checked per case; a "
+        "search, not a proof",
+        "trusts the splitting oracle (vcheck/gen/c11_listfields.py, no library import); fields "
+        "without any value are outside the domain (tokenizer precondition); the Uploaders "
+        "interpretation is left out (its rule is not documented)",
+        "DESIGN.md 4/C11"),
+    "C12": (
+        "bounded-exhaustive enumeration of every subset of each class's structured fields "
+        "(all 2^14 for PdiffIndex in thorough) x record sets x {build, parse} + Hypothesis record "
+        "lists; oracle: record round-trip against a table of documented sub-field names, dump "
+        "never raises, size-column alignment predicate, newline rejection",
+        "generated-input search with a round-trip oracle plus validity predicates over the dumped "
+        "text; every subset of structured fields is enumerated completely per class; a search, "
+        "not a proof",
+        "trusts the table of documented sub-field names copied from deb822.py's module docstring; "
+        "record lists hold 1..4 records of whitespace-free tokens",
+        "DESIGN.md 4/C12"),
+    "C13": (
+        "enumerated skeleton of all 2^4 optional-part combinations x Hypothesis-generated leaves; "
+        "oracle: parse_relations(str(r)) == r with no warning, str idempotent, same through the "
+        "Packages/Sources relations mixin",
+        "generated-input search with a round-trip oracle over relation structures; all 16 presence "
+        "masks of the optional parts are forced to occur; a search, not a proof",
+        "empty conjunctions/alternatives/arch lists/restriction groups are outside the domain "
+        "(the text format cannot express them); profiles are lower-case",
+        "DESIGN.md 4/C13"),
 }
 
 NOT_YET = "check not built yet in this round (planned; see DESIGN.md section 4)"
